@@ -151,7 +151,8 @@ void COTPdoReset(CO_TPDO *pdo, uint16_t num)
         }
     }
     pdo[num].Event = COTmrGetTicks(tmr, timer, CO_TMR_UNIT_1MS);
-    if (pdo[num].Event > 0) {
+    if ((pdo[num].Event      >  0                ) &&
+        (pdo[num].Identifier != CO_TPDO_COBID_OFF)) {
         pdo[num].EvTmr = COTmrCreate(tmr,
                                      pdo[num].Event + num,
                                      0,
@@ -273,6 +274,9 @@ void COTPdoTx(CO_TPDO *pdo)
     uint8_t    num;
 
     if ((pdo->Node->Nmt.Allowed & CO_PDO_ALLOWED) == 0) {
+        return;
+    }
+    if (pdo->Identifier == CO_TPDO_COBID_OFF) {
         return;
     }
     if ( (pdo->Flags & CO_TPDO_FLG__I_) != 0) {
